@@ -208,7 +208,7 @@ mutual
 theorem valueLitsOK_of_shapeW : ∀ v : JV, shapeW v = true → valueLitsOK v = true
   | .null, _ | .bool _, _ | .str _, _ => rfl
   | .num (.pos _), _ | .num (.neg _), _ | .num (.float _), _ => rfl
-  | .num (.lit s), h => by simp [shapeW, Spec.WF.wfNum] at h
+  | .num (.lit s), h => by simp [shapeW, wfNumW] at h
   | .arr xs, h => by
     simp only [shapeW, valueLitsOK] at h ⊢
     exact valuesLitsOK_of_shapeWs xs h
